@@ -15,7 +15,7 @@ ANCHORS = ["src/pylife/strength/meanstress.py", "src/pylife/stress/collective/lo
 SHARDS = {"quick": 8, "thorough": 16}
 WATCHDOG = {"quick": 1200, "thorough": 3300}
 REQUIRED_CLASSES = {t: ["goal:R=-inf", "goal:R=-1", "goal:R=0", "goal:R>1", "goal:0<R<1", "goal:R<-1", "cycle:R>1", "cycle:R<0",
-                        "cycle:0<R<1", "cycle:on_R=0", "cycle:on_R=-1", "cycle:on_R12", "diagram:fkm_goodman",
+                        "cycle:0<R<1", "cycle:on_R=0", "cycle:on_R=-1", "cycle:on_R=-inf", "cycle:on_R12", "diagram:fkm_goodman", "fkm_goodman:M2=0<M", "fkm_goodman:M2=M",
                         "diagram:five_segment", "five_segment:M4!=0", "matrix:from_to", "matrix:range_mean",
                         "matrix:extra_level"]
                     for t in ("quick", "thorough")}
@@ -67,7 +67,9 @@ def generate(ctx):
         c = {"kind": kind, "rseed": int(rng.integers(0, 2**31)), "R1": goal(rng), "R2": goal(rng)}
         M = float(np.round(rng.uniform(0.0, 0.9), 3))
         if kind in ("goodman", "matrix"):
-            c.update(M=M, M2=float(np.round(M * rng.uniform(0, 1), 3)))
+            u = rng.random()            # the ends of 0 <= M2 <= M belong to the quantifier
+            M2 = 0.0 if u < 0.1 else (M if u < 0.2 else float(np.round(M * rng.uniform(0, 1), 3)))
+            c.update(M=M, M2=M2)
         else:
             R12 = float(np.round(rng.uniform(0.1, 0.5), 2))
             c.update(M0=M, M1=float(np.round(M * rng.uniform(0.2, 1), 3)), M2=float(np.round(M * rng.uniform(0, 0.6), 3)),
@@ -96,7 +98,7 @@ def _cycles(rng, case, ctx):
     n = 10
     amp = np.round(rng.uniform(5, 300, n), 2)
     mean = np.round(rng.uniform(-600, 600, n), 2)
-    rays = [0.0, 1.0]                                   # t = m/a for R = -1 and R = 0
+    rays = [0.0, 1.0, -1.0]                             # t = m/a for R = -1, R = 0 and R = -inf (upper stress exactly 0)
     if case["kind"] == "five":
         rays += [H.t_of_R(case["R12"]), H.t_of_R(case["R23"])]
     extra_a = np.round(rng.uniform(5, 300, len(rays)), 2)
@@ -105,7 +107,7 @@ def _cycles(rng, case, ctx):
     for a, m in zip(amp, mean):
         t = m / a
         ctx.tag("cycle:R>1" if t < -1 else ("cycle:R<0" if t < 1 else "cycle:0<R<1"))
-    ctx.tag("cycle:on_R=-1", "cycle:on_R=0")
+    ctx.tag("cycle:on_R=-1", "cycle:on_R=0", "cycle:on_R=-inf")
     if case["kind"] == "five":
         ctx.tag("cycle:on_R12")
     return amp, mean
@@ -129,6 +131,10 @@ def run_case(case, ctx):
     amp, mean = _cycles(rng, case, ctx)
     if case["kind"] == "goodman":
         ctx.tag("diagram:fkm_goodman")
+        if case["M"] > 0 and case["M2"] == 0:
+            ctx.tag("fkm_goodman:M2=0<M")
+        if case["M"] > 0 and case["M2"] == case["M"]:
+            ctx.tag("fkm_goodman:M2=M")
         sectors = H.sectors_fkm_goodman(case["M"], case["M2"])
         hd = MS.HaighDiagram.fkm_goodman(pd.Series({"M": case["M"], "M2": case["M2"]}))
 
